@@ -23,6 +23,8 @@ def main(argv=None):
         if a.replay:
             with open(a.replay) as f:
                 data = json.load(f)
+            if ".find_layer.rigid_class." in str(data.get("obligation", "")):       # prerequisite family shared by the pipeline checks (hv/prereq.py): replayed by C16's evaluator
+                return importlib.import_module("hv.checks.c16").replay(data)
             return mod.replay(data)
         ctx = core.Ctx(pid, a.tier, a.seed)
         return mod.run(ctx)
